@@ -73,6 +73,24 @@ func eqInts(a, b []int) bool {
 	return true
 }
 
+// nth is a supplier with a memory: a the first time it runs, a different number every time after that. A lazy
+// builder step that evaluates its supplier more than once feeds two different values into the computation.
+func nth(a int) func() int {
+	n := 0
+	return func() int {
+		n++
+		if n > 1 {
+			return a + 7001*n
+		}
+		return a
+	}
+}
+
+// thunkOf wraps the supplier's value: func() M[int]
+func thunkOf[M any](s func() int, wrap func(int) M) func() M {
+	return func() M { return wrap(s()) }
+}
+
 func rev(v []int) []int {
 	r := make([]int, len(v))
 	for i, x := range v {
